@@ -21,11 +21,15 @@ r = subprocess.run(['git', '-C', '/repo', 'apply', os.path.join(dst, 'patch.diff
 assert r.returncode == 0, r.stderr
 results = {}
 try:
-    for p in sorted(meta.CLAIMED):
+    import concurrent.futures as cf
+    def one(p):
         r = subprocess.run([os.path.join(HERE, 'check'), p], capture_output=True, text=True, cwd=HERE)
-        obl = sorted(set(re.findall(r'^  obligation (\S+?)[: ]', r.stdout, re.M)))
-        results[p] = dict(rc=r.returncode, obligations=obl, summary=r.stdout.strip().split('\n')[-1])
-        print(p, r.returncode, obl)
+        obl = sorted(set(re.findall(r'^  obligation (\S+?)(?=: | \()', r.stdout, re.M)))
+        return p, dict(rc=r.returncode, obligations=obl, summary=r.stdout.strip().split('\n')[-1])
+    with cf.ThreadPoolExecutor(max_workers=4) as ex:
+        for p, v in ex.map(one, sorted(meta.CLAIMED)):
+            results[p] = v
+            print(p, v['rc'], v['obligations'], flush=True)
 finally:
     subprocess.run(['git', '-C', '/repo', 'checkout', '--', '.'], check=True)
 caught = [p for p, v in results.items() if v['rc'] == 1]
